@@ -52,8 +52,12 @@ def g_down(rng, n, p):
     return "".join(map(str, ds)) or "-"
 
 
+MAX_APPLIES_PER_KEY = 10   # shard.repair's sort.Sort is stable (insertion sort) only up to 12 documents of one key
+
+
 def g_ops(rng, n, nk, count, p_down, exchanges, ts0=0, explicit=False, monotone=True):
     ops, ts = [], ts0
+    applied = {}
     for _ in range(count):
         if monotone:
             ts += rng.choice([1, 1, 7, 10, 1000]) if explicit else 10
@@ -61,7 +65,10 @@ def g_ops(rng, n, nk, count, p_down, exchanges, ts0=0, explicit=False, monotone=
             ts = max(1, ts + rng.choice([0, 0, -3, 5, 10]))
         k = "k%d" % rng.randrange(nk)
         r = rng.random()
+        if r < 0.42 and applied.get(k, 0) >= MAX_APPLIES_PER_KEY:
+            r = 0.6
         if r < 0.42:
+            applied[k] = applied.get(k, 0) + 1
             ops.append("%s %s %s %s %d %s" % ("T" if explicit else "A", k, rng.choice("MMR"), g_tags(rng, ts), ts, g_down(rng, n, p_down)))
         elif r < 0.55:
             ops.append("D %s %s" % (k, g_down(rng, n, p_down)))
@@ -222,14 +229,22 @@ class Violation(Exception):
         self.key, self.reps = key, reps
 
 
+def has_dup(state, key):
+    """F18c class: a replica holds two documents with one id for `key` (written by shard.repair when a tombstone
+    is repaired onto the live document of the same revision)"""
+    for rep in state:
+        docs = rep.get(key, [])
+        if len({d[0] for d in docs}) != len(docs):
+            return True
+    return False
+
+
 def divergent(state, key, reps):
     """F18a class: two of the participating replicas hold the same newest revision of `key` with different deletion
-    state, or a replica holds two documents with one id"""
+    state"""
     tops = []
     for r in reps:
         docs = state[r].get(key, [])
-        if len({d[0] for d in docs}) != len(docs):
-            return True
         if docs:
             tops.append(top(docs))
     if not tops:
@@ -331,8 +346,25 @@ class C18(vlib.Spec):
                 parts[i] = "O:%s,rq%s ~ %s" % (body, rq, st)
         return " | ".join(parts)
 
+    @staticmethod
+    def norm_merkle(out):
+        """with two documents of one id in a shard the Merkle leaf is built from an unspecified one of them"""
+        if out is None or "M:" not in out:
+            return out
+        parts = out.split(" | ")
+        for i, p in enumerate(parts):
+            if p.startswith("M:") and " ~ " in p:
+                res, st = p.split(" ~ ", 1)
+                try:
+                    reps = parse_state(st)
+                except ValueError:
+                    continue
+                if any(has_dup(reps, k) for k in set().union(*[set(x) for x in reps])):
+                    parts[i] = "M:? ~ " + st
+        return " | ".join(parts)
+
     def compare(self, line, g, l):
-        return self.norm_ordered(line, g) == self.norm_ordered(line, l)
+        return self.norm_merkle(self.norm_ordered(line, g)) == self.norm_merkle(self.norm_ordered(line, l))
 
     # ------------------------------------------------------------------------------------------------------
     def oracle(self, line, g):
@@ -344,7 +376,7 @@ class C18(vlib.Spec):
             else:
                 self.oracle_history(line, g)
         except Violation as v:
-            if v.key in ("F18a", "F18b"):
+            if v.key in ("F18a", "F18b", "F18c"):
                 return ("known", v.key, str(v))
             return ("violation", str(v))
         except (ValueError, IndexError, KeyError) as e:
@@ -414,6 +446,7 @@ class C18(vlib.Spec):
         state = [dict() for _ in range(n)]
         e_state = None
         last_ts = {}
+        dup_seen = set()
         for j, (o, out) in enumerate(zip(ops, outs)):
             res, st = out.split(" ~ ", 1)
             after = parse_state(st)
@@ -426,6 +459,9 @@ class C18(vlib.Spec):
             except Violation as v:
                 if v.key is not None and v.key != "F18a" and divergent(state, v.key, v.reps if v.reps is not None else range(n)):
                     raise Violation("replicas disagree on the deletion of the newest revision of %s; %s" % (v.key, v), "F18a")
+                if v.key in dup_seen or (v.key is not None and has_dup(state, v.key)):
+                    raise Violation("a replica holds / held two documents with one id for %s (repair of a tombstone onto the live "
+                                    "document of the same revision), the delete lookup is limited to len(ids); %s" % (v.key, v), "F18c")
                 big = [(r, k, len(d)) for r in range(n) for k, d in state[r].items() if len(d) >= REV_LIMIT]
                 if big:
                     raise Violation("replica %d stores %d revisions (tombstones included) of %s, searches are limited to %d; %s"
@@ -451,6 +487,10 @@ class C18(vlib.Spec):
                 got = {p[0]: (p[2], p[1], p[3]) for p in parse_props(res[2:].rsplit(",rq", 1)[0])}
                 if got != ref:
                     raise Violation("%s: query differs from the reference map: got %s, want %s" % (where, got, ref))
+            for k in set().union(*[set(x) for x in after]):
+                if has_dup(after, k):
+                    dup_seen.add(k)
+                    self.note("states with two documents of one id")
             if o[0] == "E":
                 e_state = after
             if o[0] == "F" and e_state is not None:
@@ -476,14 +516,11 @@ class C18(vlib.Spec):
         return [i for i in range(n) if str(i) not in d]
 
     def check_generic(self, o, before, after, n, where):
-        """invariants of every step: ids unique, nothing disappears, a tombstoned revision never comes back,
+        """invariants of every step: nothing disappears, a tombstoned revision never comes back,
         the newest state of a key never goes down, equal (key, rev) = equal content"""
         content = {}
         for r in range(n):
             for k, docs in after[r].items():
-                revs = [d[0] for d in docs]
-                if len(set(revs)) != len(revs):
-                    raise Violation("%s: replica %d holds two documents with one id (%s, rev %s)" % (where, r, k, revs), k)
                 old = before[r].get(k, [])
                 od = {d[0]: d for d in old}
                 nd = {d[0]: d for d in docs}
@@ -651,6 +688,10 @@ class C18(vlib.Spec):
                 if len(live) > (0 if m[1] else 1):
                     raise Violation("%s: replica %d keeps %d live revisions of %s" % (where, r, len(live), k), k, [a, b])
         elif o[0] == "M":
+            unchanged(range(n))
+            if any(has_dup(before, k) for k in set().union(*[set(x) for x in before])):
+                self.note("merkle skipped (two documents of one id: the tree's pick is unspecified)")
+                return
             m = re.match(r"M:root([01]),state([01]),leaves(\d+)/(\d+)$", res)
             if not m:
                 raise Violation("%s: Merkle tree could not be built: %s" % (where, res))
